@@ -3,6 +3,8 @@ CONSTANTS
   MaxCands = 2
   NFill = 2
   Layouts = {"one", "two-second"}
+  MaxAttempts = 3
+  RetryRaw = FALSE
 INIT Init
 NEXT Stutter
 INVARIANT Emit
